@@ -305,6 +305,7 @@ pub proof fn lemma_nfilter_rfilter(cs: Seq<Energy>, n: int, id: i32)
     }
 }
 // ---- the loop invariant of the loop over the systems that have auxiliaries, and its closing lemma
+#[verifier::opaque]
 pub open spec fn aux_inv(d0: Seq<Energy>, d: Seq<Energy>, rem: Seq<&i32>, idx: int, m: nat) -> bool {
     &&& wf_list(d, m) && wf_list(d0, m)
     &&& nfilter(d, d.len() as int) == nfilter(d0, d0.len() as int)
@@ -320,6 +321,7 @@ pub proof fn lemma_aux_inv_init(d0: Seq<Energy>, rem: Seq<&i32>, m: nat)
     requires wf_list(d0, m),
     ensures aux_inv(d0, d0, rem, 0, m),
 {
+    reveal(aux_inv);
     assert forall|u: i32| !svisited(rem, 0, u) by {}
 }
 pub proof fn lemma_svisit_step(rem: Seq<&i32>, n: int)
@@ -341,6 +343,7 @@ pub proof fn lemma_aux_final(d0: Seq<Energy>, d: Seq<Energy>, rem: Seq<&i32>, m:
         forall|x: i32| a_any(d0, d0.len() as int, ASel::AuxAll(x)) ==> #[trigger] svisited(rem, rem.len() as int, x),
     ensures aux_ok(d0, d),
 {
+    reveal(aux_inv);
     assert forall|id: i32, s: Service, t: int| 0 <= t < nsteps(d0) implies #[trigger] a_sum(d, d.len() as int, ASel::Aux(id, s), t) == aux_target(d0, id, s, t) by {
         if !svisited(rem, rem.len() as int, id) {
             assert(!a_any(d0, d0.len() as int, ASel::AuxAll(id)));
@@ -373,6 +376,7 @@ pub proof fn lemma_aux_single(d0: Seq<Energy>, a: Seq<Energy>, b: Seq<Energy>, r
         use_srv(a, a.len() as int, id, srv), forall|s: Service| #[trigger] use_srv(a, a.len() as int, id, s) ==> s == srv,
     ensures aux_inv(d0, b, rem, ki + 1, m),
 {
+    reveal(aux_inv);
     lemma_svisit_step(rem, ki);
     lemma_set_srv_props(a, b, id, srv, m);
     assert forall|j: int| 0 <= j < a.len() implies ((#[trigger] b[j]) is Aux) == (a[j] is Aux) && (!(b[j] is Aux) ==> b[j] == a[j]) by { assert(b[j] == set_srv(a[j], id, srv)); }
@@ -430,6 +434,7 @@ pub proof fn lemma_aux_multi(d0: Seq<Energy>, a: Seq<Energy>, b: Seq<Energy>, re
              } else { 0real }),
     ensures aux_inv(d0, b, rem, ki + 1, m),
 {
+    reveal(aux_inv);
     lemma_svisit_step(rem, ki);
     assert forall|u: i32, s: Service| #[trigger] use_srv(b, b.len() as int, u, s) == use_srv(d0, d0.len() as int, u, s) by {
         assert(use_srv(a, a.len() as int, u, s) == use_srv(d0, d0.len() as int, u, s));
@@ -472,4 +477,349 @@ pub proof fn lemma_aux_multi(d0: Seq<Energy>, a: Seq<Energy>, b: Seq<Energy>, re
             assert(a_sum(a, a.len() as int, ASel::Aux(u, s), t) == aux_target(d0, u, s, t));
         }
     }
+}
+
+// ---- pieces of the multi-service branch
+/// the auxiliary components of system id among the first n components
+pub open spec fn xfilter(cs: Seq<Energy>, n: int, id: i32) -> Seq<Energy> decreases n {
+    if n <= 0 { Seq::empty() } else if cs[n - 1] is Aux && e_id(cs[n - 1]) == id { xfilter(cs, n - 1, id).push(cs[n - 1]) } else { xfilter(cs, n - 1, id) }
+}
+pub proof fn lemma_xfilter(cs: Seq<Energy>, n: int, id: i32, t: int, m: nat)
+    requires 0 <= n <= cs.len(), wf_list(cs, m),
+    ensures es_sum(xfilter(cs, n, id), xfilter(cs, n, id).len() as int, t) == a_sum(cs, n, ASel::AuxAll(id), t),
+            (xfilter(cs, n, id).len() > 0) == a_any(cs, n, ASel::AuxAll(id)), wf_list(xfilter(cs, n, id), m),
+    decreases n,
+{
+    if n > 0 {
+        lemma_xfilter(cs, n - 1, id, t, m);
+        let a = xfilter(cs, n - 1, id);
+        let b = xfilter(cs, n, id);
+        let e = cs[n - 1];
+        if e is Aux && e_id(e) == id {
+            assert(b == a.push(e));
+            lemma_es_sum_prefix(b, a, a.len() as int, t);
+            assert(es_sum(b, b.len() as int, t) == es_sum(b, a.len() as int, t) + ls_get(e_vals(b[a.len() as int]), t));
+            assert(a_sel(ASel::AuxAll(id), cs[n - 1]));
+            assert(e_vals(e).len() == m);
+        } else {
+            if a_any(cs, n, ASel::AuxAll(id)) { let j = choose|j: int| 0 <= j < n && a_sel(ASel::AuxAll(id), #[trigger] cs[j]); assert(j < n - 1); assert(a_any(cs, n - 1, ASel::AuxAll(id))); }
+        }
+        if a_any(cs, n - 1, ASel::AuxAll(id)) { let j = choose|j: int| 0 <= j < n - 1 && a_sel(ASel::AuxAll(id), #[trigger] cs[j]); assert(a_sel(ASel::AuxAll(id), cs[j])); }
+    } else {
+        assert(!a_any(cs, n, ASel::AuxAll(id)));
+    }
+}
+/// sums over the output map in arbitrary iteration order = sum over the seven services
+pub open spec fn mq_term(q: Map<Service, Vec<f32>>, s: Service, t: int) -> real { if q.contains_key(s) { rabs(ls_get(q[s]@, t)) } else { 0real } }
+pub open spec fn mq_sum(q: Map<Service, Vec<f32>>, t: int, l: Seq<Service>) -> real decreases l.len() {
+    if l.len() == 0 { 0real } else { mq_sum(q, t, l.drop_last()) + mq_term(q, l.last(), t) }
+}
+pub open spec fn pmq_sum(q: Map<Service, Vec<f32>>, rem: Seq<(&Service, &Vec<f32>)>, n: int, t: int, l: Seq<Service>) -> real decreases l.len() {
+    if l.len() == 0 { 0real } else { pmq_sum(q, rem, n, t, l.drop_last()) + (if visited(rem, n, l.last()) { mq_term(q, l.last(), t) } else { 0real }) }
+}
+pub proof fn lemma_pmq_step(q: Map<Service, Vec<f32>>, rem: Seq<(&Service, &Vec<f32>)>, n: int, t: int, l: Seq<Service>, k: Service)
+    requires l.no_duplicates(), !visited(rem, n, k), visited(rem, n + 1, k),
+             forall|x: Service| x != k ==> #[trigger] visited(rem, n + 1, x) == visited(rem, n, x),
+    ensures pmq_sum(q, rem, n + 1, t, l) == pmq_sum(q, rem, n, t, l) + (if l.contains(k) { mq_term(q, k, t) } else { 0real }),
+    decreases l.len(),
+{
+    if l.len() > 0 {
+        let l0 = l.drop_last();
+        let x = l.last();
+        assert(l0.no_duplicates()) by { assert forall|i: int, j: int| 0 <= i < l0.len() && 0 <= j < l0.len() && i != j implies l0[i] != l0[j] by { assert(l0[i] == l[i] && l0[j] == l[j]); } }
+        lemma_pmq_step(q, rem, n, t, l0, k);
+        if x == k {
+            assert(!l0.contains(k)) by { if l0.contains(k) { let i = choose|i: int| 0 <= i < l0.len() && l0[i] == k; assert(l[i] == k && l[l.len() - 1] == k); } }
+            assert(l.contains(k)) by { assert(l[l.len() - 1] == k); }
+        } else {
+            assert(l.contains(k) == l0.contains(k)) by {
+                if l.contains(k) { let i = choose|i: int| 0 <= i < l.len() && l[i] == k; assert(i < l.len() - 1); assert(l0[i] == k); }
+                if l0.contains(k) { let i = choose|i: int| 0 <= i < l0.len() && l0[i] == k; assert(l[i] == k); }
+            }
+        }
+    }
+}
+pub proof fn lemma_pmq_none(q: Map<Service, Vec<f32>>, rem: Seq<(&Service, &Vec<f32>)>, t: int, l: Seq<Service>)
+    ensures pmq_sum(q, rem, 0, t, l) == 0real,
+    decreases l.len(),
+{
+    if l.len() > 0 { lemma_pmq_none(q, rem, t, l.drop_last()); assert(!visited(rem, 0, l.last())); }
+}
+pub proof fn lemma_pmq_full(q: Map<Service, Vec<f32>>, rem: Seq<(&Service, &Vec<f32>)>, n: int, t: int, l: Seq<Service>)
+    requires forall|x: Service| q.contains_key(x) ==> #[trigger] visited(rem, n, x),
+    ensures pmq_sum(q, rem, n, t, l) == mq_sum(q, t, l),
+    decreases l.len(),
+{
+    if l.len() > 0 { lemma_pmq_full(q, rem, n, t, l.drop_last()); }
+}
+/// the output map built by the function is the per-service output sum of the components
+pub open spec fn q_map_ok(q: Map<Service, Vec<f32>>, cs: Seq<Energy>, n: int, id: i32, m: nat) -> bool {
+    &&& mapv_len(q, m)
+    &&& (forall|s: Service| #[trigger] q.contains_key(s) == a_any(cs, n, ASel::Out(id, s)))
+    &&& (forall|s: Service, t: int| q.contains_key(s) && 0 <= t < m ==> rv(#[trigger] q[s]@[t]) == a_sum(cs, n, ASel::Out(id, s), t))
+}
+pub proof fn lemma_mq_q_tot(q: Map<Service, Vec<f32>>, cs: Seq<Energy>, id: i32, t: int, m: nat, l: Seq<Service>)
+    requires q_map_ok(q, cs, cs.len() as int, id, m), 0 <= t < m,
+    ensures mq_sum(q, t, l) == q_tot(cs, id, t, l),
+    decreases l.len(),
+{
+    if l.len() > 0 {
+        lemma_mq_q_tot(q, cs, id, t, m, l.drop_last());
+        let s = l.last();
+        assert(q.contains_key(s) == a_any(cs, cs.len() as int, ASel::Out(id, s)));
+        if q.contains_key(s) { assert(q[s]@.len() == m); assert(rv(q[s]@[t]) == a_sum(cs, cs.len() as int, ASel::Out(id, s), t)); }
+    }
+}
+/// share vector of one service
+pub open spec fn frac_ok(f: Seq<f32>, q: Seq<f32>, tot: Seq<f32>, m: nat) -> bool {
+    f.len() == m && forall|t: int| 0 <= t < m ==> rv(#[trigger] f[t]) == (if rv(tot[t]) > 0real { rabs(rv(q[t])) / rv(tot[t]) } else { 0real })
+}
+pub open spec fn in_prefix(l: Seq<Service>, n: int, s: Service) -> bool { exists|j: int| 0 <= j < n && #[trigger] l[j] == s }
+pub proof fn lemma_aux_final_if(d0: Seq<Energy>, d: Seq<Energy>, rem: Seq<&i32>, n: int, m: nat, ids: Set<i32>)
+    requires aux_inv(d0, d, rem, n, m), m == nsteps(d0), iset_iter_ok(ids, rem),
+        forall|x: i32| #[trigger] ids.contains(x) == a_any(d0, d0.len() as int, ASel::AuxAll(x)),
+    ensures n == rem.len() ==> aux_ok(d0, d),
+{
+    if n == rem.len() {
+        assert forall|x: i32| a_any(d0, d0.len() as int, ASel::AuxAll(x)) implies #[trigger] svisited(rem, rem.len() as int, x) by {
+            assert(ids.contains(x));
+            let j = choose|j: int| 0 <= j < rem.len() && *(#[trigger] rem[j]) == x;
+            assert(svisited(rem, rem.len() as int, x));
+        }
+        lemma_aux_final(d0, d, rem, m);
+    }
+}
+pub proof fn lemma_set_len1(sv: Set<Service>, x: Service)
+    requires sv.finite(), sv.len() == 1, sv.contains(x),
+    ensures forall|y: Service| sv.contains(y) ==> y == x,
+{
+    let r = sv.remove(x);
+    assert(r.len() == 0);
+    assert forall|y: Service| sv.contains(y) implies y == x by {
+        if y != x { assert(r.contains(y)); assert(r.len() > 0) by { vstd::set_lib::lemma_set_empty_equivalency_len(r); } }
+    }
+}
+pub proof fn lemma_set_is_one(sv: Set<Service>, x: Service)
+    requires sv.finite(), forall|y: Service| sv.contains(y) == (y == x),
+    ensures sv.len() == 1,
+{
+    assert(sv =~= Set::empty().insert(x));
+}
+pub open spec fn sset_iter_ok(sv: Set<Service>, rem: Seq<&Service>) -> bool {
+    &&& rem.no_duplicates()
+    &&& rem.len() == sv.len()
+    &&& (forall|k: Service| sv.contains(k) ==> exists|j: int| 0 <= j < rem.len() && *(#[trigger] rem[j]) == k)
+}
+pub proof fn lemma_sset_first(sv: Set<Service>, rem: Seq<&Service>)
+    requires sset_iter_ok(sv, rem), sv.finite(), sv.len() == 1,
+    ensures rem.len() == 1, sv.contains(*rem[0]),
+{
+    let x = choose|x: Service| sv.contains(x);
+    assert(sv.contains(x)) by { if forall|y: Service| !sv.contains(y) { assert(sv =~= Set::empty()); } }
+    let j = choose|j: int| 0 <= j < rem.len() && *(#[trigger] rem[j]) == x;
+    assert(j == 0);
+}
+pub open spec fn pmq_sum0(q: Map<Service, Vec<f32>>, rem: Seq<(&Service, &Vec<f32>)>, n: int, t: int, l: Seq<Service>) -> real {
+    if n == 0 { 0real } else { pmq_sum(q, rem, n, t, l) }
+}
+pub proof fn lemma_mq_empty(q: Map<Service, Vec<f32>>, t: int, l: Seq<Service>)
+    requires forall|s: Service| !q.contains_key(s),
+    ensures mq_sum(q, t, l) == 0real,
+    decreases l.len(),
+{
+    if l.len() > 0 { lemma_mq_empty(q, t, l.drop_last()); }
+}
+pub proof fn lemma_pmq_full_if(q: Map<Service, Vec<f32>>, rem: Seq<(&Service, &Vec<f32>)>, n: int, t: int, l: Seq<Service>)
+    requires map_iter_ok(q, rem), n > 0,
+    ensures n == rem.len() ==> pmq_sum(q, rem, n, t, l) == mq_sum(q, t, l),
+{
+    if n == rem.len() {
+        lemma_visit_all(q, rem);
+        lemma_pmq_full(q, rem, n, t, l);
+    }
+}
+pub proof fn lemma_keys_cover<V>(q: Map<Service, V>, rem: Seq<&Service>, out: Seq<Service>, n: int)
+    requires keys_iter_ok(q, rem), 0 <= n <= rem.len(), out.len() == n, forall|j: int| 0 <= j < n ==> #[trigger] out[j] == *rem[j],
+    ensures n == rem.len() ==> forall|s: Service| q.contains_key(s) ==> #[trigger] in_prefix(out, n, s),
+            out.no_duplicates(),
+{
+    if n == rem.len() {
+        assert forall|s: Service| q.contains_key(s) implies #[trigger] in_prefix(out, n, s) by {
+            let j = choose|j: int| 0 <= j < rem.len() && *(#[trigger] rem[j]) == s;
+            assert(out[j] == s);
+        }
+    }
+    assert forall|i: int, j: int| 0 <= i < out.len() && 0 <= j < out.len() && i != j implies out[i] != out[j] by {
+        assert(rem[i] != rem[j]);
+    }
+}
+/// end of the multi-service branch: the facts established by the function imply the hypotheses of lemma_aux_multi
+pub proof fn lemma_aux_multi_if(d0: Seq<Energy>, a: Seq<Energy>, b: Seq<Energy>, rem: Seq<&i32>, ki: int, id: i32, m: nat,
+        os: Seq<Service>, n: int, q0: Map<Service, Vec<f32>>, qf: Map<Service, Vec<f32>>, tot: Seq<f32>, aux_tot: Seq<f32>)
+    requires aux_inv(d0, a, rem, ki, m), rem.no_duplicates(), 0 <= ki < rem.len(), *rem[ki] == id,
+        a_any(d0, d0.len() as int, ASel::AuxAll(id)), !aux_one(d0, id),
+        wf_list(b, m), nfilter(b, b.len() as int) == nfilter(a, a.len() as int),
+        forall|u: i32, s: Service| #[trigger] use_srv(b, b.len() as int, u, s) == use_srv(a, a.len() as int, u, s),
+        forall|k: ASel, t: int| !a_touches(k, id) ==> #[trigger] a_sum(b, b.len() as int, k, t) == a_sum(a, a.len() as int, k, t),
+        forall|k: ASel| !a_touches(k, id) ==> #[trigger] a_any(b, b.len() as int, k) == a_any(a, a.len() as int, k),
+        forall|s: Service, t: int| 0 <= t < m ==> #[trigger] a_sum(b, b.len() as int, ASel::Aux(id, s), t)
+            == (if in_prefix(os, n, s) { rmul(rv(qf[s]@[t]), rv(aux_tot[t])) } else { 0real }),
+        // what the function computed before
+        q_map_ok(q0, a, a.len() as int, id, m),
+        forall|j: int| 0 <= j < os.len() ==> q0.contains_key(#[trigger] os[j]),
+        forall|s: Service| q0.contains_key(s) ==> #[trigger] in_prefix(os, os.len() as int, s),
+        forall|j: int| 0 <= j < os.len() ==> frac_ok(qf[#[trigger] os[j]]@, q0[os[j]]@, tot, m),
+        tot.len() == m, forall|t: int| 0 <= t < m ==> rv(#[trigger] tot[t]) == q_tot(a, id, t, services7()),
+        aux_tot.len() == m, forall|t: int| 0 <= t < m ==> rv(#[trigger] aux_tot[t]) == a_sum(a, a.len() as int, ASel::AuxAll(id), t),
+    ensures n == os.len() ==> aux_inv(d0, b, rem, ki + 1, m),
+{
+    if n == os.len() {
+        assert forall|s: Service, t: int| 0 <= t < m implies #[trigger] a_sum(b, b.len() as int, ASel::Aux(id, s), t) ==
+            (if a_any(a, a.len() as int, ASel::Out(id, s)) {
+                rmul(if q_tot(a, id, t, services7()) > 0real { q_abs(a, id, s, t) / q_tot(a, id, t, services7()) } else { 0real }, a_sum(a, a.len() as int, ASel::AuxAll(id), t))
+             } else { 0real }) by {
+            assert(q0.contains_key(s) == a_any(a, a.len() as int, ASel::Out(id, s)));
+            if q0.contains_key(s) {
+                assert(in_prefix(os, os.len() as int, s));
+                let j = choose|j: int| 0 <= j < os.len() && #[trigger] os[j] == s;
+                assert(frac_ok(qf[os[j]]@, q0[os[j]]@, tot, m));
+                assert(rv(qf[s]@[t]) == (if rv(tot[t]) > 0real { rabs(rv(q0[s]@[t])) / rv(tot[t]) } else { 0real }));
+                assert(rv(q0[s]@[t]) == a_sum(a, a.len() as int, ASel::Out(id, s), t));
+                assert(rv(tot[t]) == q_tot(a, id, t, services7()));
+                assert(rv(aux_tot[t]) == a_sum(a, a.len() as int, ASel::AuxAll(id), t));
+            } else {
+                if in_prefix(os, n, s) { let j = choose|j: int| 0 <= j < n && #[trigger] os[j] == s; assert(q0.contains_key(os[j])); }
+            }
+        }
+        lemma_aux_multi(d0, a, b, rem, ki, id, m);
+    }
+}
+
+pub proof fn lemma_aux_inv_facts(d0: Seq<Energy>, d: Seq<Energy>, rem: Seq<&i32>, idx: int, m: nat, u: i32)
+    requires aux_inv(d0, d, rem, idx, m), !svisited(rem, idx, u),
+    ensures a_any(d, d.len() as int, ASel::AuxAll(u)) == a_any(d0, d0.len() as int, ASel::AuxAll(u)), wf_list(d, m), wf_list(d0, m),
+        forall|s: Service| #[trigger] use_srv(d, d.len() as int, u, s) == use_srv(d0, d0.len() as int, u, s),
+{
+    reveal(aux_inv);
+}
+pub proof fn lemma_aux_inv_init_all(d0: Seq<Energy>, m: nat)
+    requires wf_list(d0, m),
+    ensures forall|rem: Seq<&i32>| #[trigger] aux_inv(d0, d0, rem, 0, m),
+{
+    assert forall|rem: Seq<&i32>| #[trigger] aux_inv(d0, d0, rem, 0, m) by { lemma_aux_inv_init(d0, rem, m); }
+}
+
+// ---- packaged steps (so that the function body carries few quantified facts)
+pub proof fn lemma_auxvals(arg: Seq<&[f32]>, data_in: Seq<Energy>, idv: i32, m: nat)
+    requires vals_of(arg, xfilter(data_in, data_in.len() as int, idv)), wf_list(data_in, m), a_any(data_in, data_in.len() as int, ASel::AuxAll(idv)),
+    ensures arg.len() > 0, ls_maxlen(arg, arg.len() as int) == m,
+        forall|t: int| #[trigger] ls_sum(arg, arg.len() as int, t) == a_sum(data_in, data_in.len() as int, ASel::AuxAll(idv), t),
+{
+    let xf = xfilter(data_in, data_in.len() as int, idv);
+    lemma_xfilter(data_in, data_in.len() as int, idv, 0, m);
+    assert forall|t: int| #[trigger] ls_sum(arg, arg.len() as int, t) == a_sum(data_in, data_in.len() as int, ASel::AuxAll(idv), t) by {
+        lemma_ls_es(arg, xf, xf.len() as int, t, m);
+        lemma_xfilter(data_in, data_in.len() as int, idv, t, m);
+    }
+    lemma_ls_es(arg, xf, xf.len() as int, 0, m);
+}
+pub proof fn lemma_not_one(d0: Seq<Energy>, data_in: Seq<Energy>, idv: i32, sv: Set<Service>)
+    requires sv.len() != 1,
+        forall|s: Service| #[trigger] sv.contains(s) == use_srv(data_in, data_in.len() as int, idv, s),
+        forall|s: Service| #[trigger] use_srv(data_in, data_in.len() as int, idv, s) == use_srv(d0, d0.len() as int, idv, s),
+    ensures !aux_one(d0, idv),
+{
+    if aux_one(d0, idv) {
+        let s0 = choose|s0: Service| #[trigger] use_srv(d0, d0.len() as int, idv, s0) && forall|s: Service| #[trigger] use_srv(d0, d0.len() as int, idv, s) ==> s == s0;
+        assert forall|y: Service| sv.contains(y) == (y == s0) by {
+            assert(use_srv(data_in, data_in.len() as int, idv, y) == use_srv(d0, d0.len() as int, idv, y));
+        }
+        lemma_set_is_one(sv, s0);
+    }
+}
+/// the data after `retain` (all auxiliaries of idv removed), relative to the data before
+#[verifier::opaque]
+pub open spec fn retained_ok(a: Seq<Energy>, r: Seq<Energy>, id: i32, m: nat) -> bool {
+    &&& wf_list(r, m) && nfilter(r, r.len() as int) == nfilter(a, a.len() as int)
+    &&& (forall|u: i32, s: Service| #[trigger] use_srv(r, r.len() as int, u, s) == use_srv(a, a.len() as int, u, s))
+    &&& (forall|k: ASel, t: int| !a_touches(k, id) ==> #[trigger] a_sum(r, r.len() as int, k, t) == a_sum(a, a.len() as int, k, t))
+    &&& (forall|k: ASel| !a_touches(k, id) ==> #[trigger] a_any(r, r.len() as int, k) == a_any(a, a.len() as int, k))
+}
+pub proof fn lemma_after_retain(a: Seq<Energy>, id: i32, m: nat)
+    requires wf_list(a, m),
+    ensures retained_ok(a, rfilter(a, a.len() as int, id), id, m),
+        forall|s: Service, t: int| #[trigger] a_sum(rfilter(a, a.len() as int, id), rfilter(a, a.len() as int, id).len() as int, ASel::Aux(id, s), t) == 0real,
+{
+    reveal(retained_ok); reveal(multi_ctx);
+    let r = rfilter(a, a.len() as int, id);
+    lemma_rfilter_props(a, a.len() as int, id, m);
+    lemma_nfilter_rfilter(a, a.len() as int, id);
+    assert forall|k: ASel, t: int| !a_touches(k, id) implies #[trigger] a_sum(r, r.len() as int, k, t) == a_sum(a, a.len() as int, k, t) by { lemma_a_rfilter(a, a.len() as int, id, k, t); }
+    assert forall|k: ASel| !a_touches(k, id) implies #[trigger] a_any(r, r.len() as int, k) == a_any(a, a.len() as int, k) by { lemma_a_rfilter(a, a.len() as int, id, k, 0); }
+    assert forall|s: Service, t: int| #[trigger] a_sum(r, r.len() as int, ASel::Aux(id, s), t) == 0real by { lemma_a_rfilter(a, a.len() as int, id, ASel::Aux(id, s), t); }
+}
+/// one push of the new auxiliary component of service os[k]
+pub proof fn lemma_push_step(a: Seq<Energy>, b0: Seq<Energy>, e: Energy, id: i32, m: nat, os: Seq<Service>, k: int, qf: Map<Service, Vec<f32>>, aux_tot: Seq<f32>)
+    requires retained_ok(a, b0, id, m), 0 <= k < os.len(), os.no_duplicates(),
+        e is Aux, e_id(e) == id, e->Aux_0.service == os[k], e_vals(e).len() == m,
+        forall|t: int| 0 <= t < m ==> rv(#[trigger] e_vals(e)[t]) == rmul(rv(qf[os[k]]@[t]), rv(aux_tot[t])),
+        forall|s: Service, t: int| 0 <= t < m ==> #[trigger] a_sum(b0, b0.len() as int, ASel::Aux(id, s), t)
+            == (if in_prefix(os, k, s) { rmul(rv(qf[s]@[t]), rv(aux_tot[t])) } else { 0real }),
+    ensures retained_ok(a, b0.push(e), id, m),
+        forall|s: Service, t: int| 0 <= t < m ==> #[trigger] a_sum(b0.push(e), (b0.len() as int + 1), ASel::Aux(id, s), t)
+            == (if in_prefix(os, k + 1, s) { rmul(rv(qf[s]@[t]), rv(aux_tot[t])) } else { 0real }),
+{
+    reveal(retained_ok); reveal(multi_ctx);
+    let b = b0.push(e);
+    lemma_push_aux_props(b0, e, m);
+    lemma_nfilter_push(b0, e);
+    assert forall|u: i32, s: Service| #[trigger] use_srv(b, b.len() as int, u, s) == use_srv(a, a.len() as int, u, s) by {
+        assert(use_srv(b0, b0.len() as int, u, s) == use_srv(a, a.len() as int, u, s));
+    }
+    assert forall|kk: ASel, t: int| !a_touches(kk, id) implies #[trigger] a_sum(b, b.len() as int, kk, t) == a_sum(a, a.len() as int, kk, t) by {
+        lemma_a_push(b0, e, kk, t);
+        assert(!a_sel(kk, e));
+        assert(a_sum(b0, b0.len() as int, kk, t) == a_sum(a, a.len() as int, kk, t));
+    }
+    assert forall|kk: ASel| !a_touches(kk, id) implies #[trigger] a_any(b, b.len() as int, kk) == a_any(a, a.len() as int, kk) by {
+        lemma_a_push(b0, e, kk, 0);
+        assert(!a_sel(kk, e));
+        assert(a_any(b0, b0.len() as int, kk) == a_any(a, a.len() as int, kk));
+    }
+    assert(!in_prefix(os, k, os[k])) by { if in_prefix(os, k, os[k]) { let j = choose|j: int| 0 <= j < k && #[trigger] os[j] == os[k]; } }
+    assert forall|s: Service, t: int| 0 <= t < m implies #[trigger] a_sum(b, (b0.len() as int + 1), ASel::Aux(id, s), t)
+        == (if in_prefix(os, k + 1, s) { rmul(rv(qf[s]@[t]), rv(aux_tot[t])) } else { 0real }) by {
+        lemma_a_push(b0, e, ASel::Aux(id, s), t);
+        assert(a_sel(ASel::Aux(id, s), e) == (s == os[k]));
+        assert(a_sum(b0, b0.len() as int, ASel::Aux(id, s), t) == (if in_prefix(os, k, s) { rmul(rv(qf[s]@[t]), rv(aux_tot[t])) } else { 0real }));
+        if s == os[k] { assert(in_prefix(os, k + 1, s)); assert(ls_get(e_vals(e), t) == rv(e_vals(e)[t])); }
+        else {
+            if in_prefix(os, k + 1, s) { let j = choose|j: int| 0 <= j < k + 1 && #[trigger] os[j] == s; assert(j < k); assert(in_prefix(os, k, s)); }
+            if in_prefix(os, k, s) { let j = choose|j: int| 0 <= j < k && #[trigger] os[j] == s; assert(in_prefix(os, k + 1, s)); }
+        }
+    }
+}
+/// everything the multi-service branch has computed before it rewrites the data
+#[verifier::opaque]
+pub open spec fn multi_ctx(d0: Seq<Energy>, a: Seq<Energy>, rem: Seq<&i32>, ki: int, id: i32, m: nat,
+        os: Seq<Service>, q0: Map<Service, Vec<f32>>, qf: Map<Service, Vec<f32>>, tot: Seq<f32>, aux_tot: Seq<f32>) -> bool {
+    &&& aux_inv(d0, a, rem, ki, m) && rem.no_duplicates() && 0 <= ki < rem.len() && *rem[ki] == id
+    &&& a_any(d0, d0.len() as int, ASel::AuxAll(id)) && !aux_one(d0, id)
+    &&& q_map_ok(q0, a, a.len() as int, id, m)
+    &&& os.no_duplicates()
+    &&& (forall|j: int| 0 <= j < os.len() ==> q0.contains_key(#[trigger] os[j]))
+    &&& (forall|s: Service| q0.contains_key(s) ==> #[trigger] in_prefix(os, os.len() as int, s))
+    &&& (forall|j: int| 0 <= j < os.len() ==> frac_ok(qf[#[trigger] os[j]]@, q0[os[j]]@, tot, m))
+    &&& tot.len() == m && (forall|t: int| 0 <= t < m ==> rv(#[trigger] tot[t]) == q_tot(a, id, t, services7()))
+    &&& aux_tot.len() == m && (forall|t: int| 0 <= t < m ==> rv(#[trigger] aux_tot[t]) == a_sum(a, a.len() as int, ASel::AuxAll(id), t))
+}
+pub proof fn lemma_multi_close(d0: Seq<Energy>, a: Seq<Energy>, b: Seq<Energy>, rem: Seq<&i32>, ki: int, id: i32, m: nat,
+        os: Seq<Service>, n: int, q0: Map<Service, Vec<f32>>, qf: Map<Service, Vec<f32>>, tot: Seq<f32>, aux_tot: Seq<f32>)
+    requires multi_ctx(d0, a, rem, ki, id, m, os, q0, qf, tot, aux_tot), retained_ok(a, b, id, m),
+        forall|s: Service, t: int| 0 <= t < m ==> #[trigger] a_sum(b, b.len() as int, ASel::Aux(id, s), t)
+            == (if in_prefix(os, n, s) { rmul(rv(qf[s]@[t]), rv(aux_tot[t])) } else { 0real }),
+    ensures n == os.len() ==> aux_inv(d0, b, rem, ki + 1, m),
+{
+    reveal(retained_ok); reveal(multi_ctx);
+    lemma_aux_multi_if(d0, a, b, rem, ki, id, m, os, n, q0, qf, tot, aux_tot);
 }
